@@ -1,3 +1,3 @@
-// C02 part 5: element types selected by C02_PART (see C02_linalg.cpp)
-#define C02_PART 5
+// C02 part 7: element types selected by C02_PART (see C02_linalg.cpp, which is the whole harness)
+#define C02_PART 7
 #include "C02_linalg.cpp"
